@@ -35,7 +35,10 @@ func InitStream(p *xml.Decoder) (sessionID string, err error) {
 			for _, attrs := range elem.Attr {
 				switch attrs.Name.Local {
 				case "id":
-					sessionID = attrs.Value
+					// Only the unqualified id attribute is the stream id
+					if attrs.Name.Space == "" {
+						sessionID = attrs.Value
+					}
 				}
 			}
 			return sessionID, err
